@@ -1,5 +1,70 @@
-(* Property C03 — placeholder until the pair theorems land. *)
-From GJ Require Import Base Kernel KernelSpec KernelProofs IntersectsProofs.
-Theorem C03_segment_level_symmetry : forall s o, intersects_segment s o = intersects_segment o s.
-Proof. exact intersects_segment_sym. Qed.
-Print Assumptions C03_segment_level_symmetry.
+(* Property C03 — Contains/Within is exact.  PARTIAL: kernel-checked for the
+   pairs below; containment by concave rings and polygons with holes is NOT
+   proved — the pinned tree genuinely violates the property there in
+   boundary-contact configurations (KNOWN_FINDINGS.txt), and those pairs are
+   decided on every run by the correspondence against the Coq model (must agree)
+   and the executable oracle PairSpec.covers_x (disagreements must fall in a
+   listed class). *)
+From Coq Require Import QArith.
+From GJ Require Import Base Kernel KernelSpec KernelProofs IntersectsProofs Series SeriesSpec
+  Ring RingSpec PipProofs PairProofs.
+Open Scope Z_scope.
+
+(* X contains a point: point membership (for a single point covering = meeting) *)
+Theorem C03_rect_point : forall r p, rect_contains_point r p = in_rectb r p.
+Proof. exact rect_contains_point_spec. Qed.
+Theorem C03_line_point : forall ps p, line_contains_point_r (Lr ps) p = in_lineb ps p.
+Proof. exact line_intersects_point_spec. Qed.
+Theorem C03_poly_point : forall e hs p,
+  poly_contains_point (Pg e hs) p = in_polyb (ring_edges e) (map ring_edges hs) p.
+Proof. exact poly_intersects_point_spec. Qed.
+
+(* a segment contains a segment exactly when it contains both endpoints *)
+Theorem C03_segment_segment : forall s o,
+  seg_contains_segment s o = true <-> on_seg s (fst o) /\ on_seg s (snd o).
+Proof. exact seg_contains_segment_iff. Qed.
+
+(* rect contains rect: every (rational) point of o's box is in r's box *)
+Theorem C03_rect_rect : forall r o, rect_wf o ->
+  (rect_contains_rect r o = true <-> forall x y, in_rectQ o x y -> in_rectQ r x y).
+Proof. exact rect_contains_rect_covers. Qed.
+
+(* rect contains line / polygon: non-empty and every vertex in the box; a box is
+   convex, so then every point of every segment is in the box *)
+Theorem C03_rect_line : forall q ps,
+  rect_contains_line q (Lr ps) = true <-> (2 <= length ps)%nat /\ forall p, In p ps -> in_rectb q p = true.
+Proof. exact rect_contains_line_spec. Qed.
+Theorem C03_rect_line_all_points : forall q ps s p,
+  rect_contains_line q (Lr ps) = true -> In s (path_segs ps) -> on_seg s p -> in_rectb q p = true.
+Proof. exact rect_contains_line_points. Qed.
+Theorem C03_rect_poly : forall q e hs,
+  rect_contains_poly q (Pg e hs) = true <-> (3 <= length e)%nat /\ forall p, In p e -> in_rectb q p = true.
+Proof. exact rect_contains_poly_spec. Qed.
+
+(* a point contains X exactly when X is non-empty and degenerates to that point *)
+Theorem C03_point_rect : forall p q, point_contains_rect p q = true <-> q = (p, p).
+Proof. exact point_contains_rect_spec. Qed.
+Theorem C03_point_line : forall p ps,
+  point_contains_line p (Lr ps) = true <-> (2 <= length ps)%nat /\ forall v, In v ps -> v = p.
+Proof. exact point_contains_line_spec. Qed.
+
+(* necessary conditions, all inputs: a ring that contains a segment contains both
+   endpoints; a ring that contains a ring contains its box and (concave receiver)
+   every vertex of it *)
+Theorem C03_ring_segment_endpoints : forall r sg allow,
+  rcs r sg allow = true -> rcp_hit r (fst sg) allow = true /\ rcp_hit r (snd sg) allow = true.
+Proof. exact rcs_endpoints_in. Qed.
+Theorem C03_ring_ring_box : forall r o allow,
+  rcr_core r o allow = true -> rect_contains_rect (ring_rect r) (ring_rect o) = true.
+Proof. exact rcr_core_rect. Qed.
+Theorem C03_ring_ring_vertices : forall r o allow sg,
+  rcr_core r o allow = true -> ring_convex r = false -> In sg (ring_segments o) ->
+  rcp_hit r (fst sg) allow = true /\ rcp_hit r (snd sg) allow = true.
+Proof. exact rcr_core_vertices. Qed.
+
+Print Assumptions C03_rect_rect.
+Print Assumptions C03_rect_line.
+Print Assumptions C03_rect_poly.
+Print Assumptions C03_point_line.
+Print Assumptions C03_ring_ring_vertices.
+Print Assumptions C03_segment_segment.
